@@ -149,6 +149,7 @@ def screaming_snake(ident):
 
 
 def main():
+    missing = []
     fields = src("protocol/fields.rs")
     pmod = src("protocol/mod.rs")
     body = src("protocol/body.rs")
@@ -166,198 +167,220 @@ def main():
     A("namespace Fcgi.Gen")
     A("")
 
-    # ---- enums -------------------------------------------------------------------
-    for en in ["Version", "Role", "ProtocolStatus", "RecordType"]:
-        items = enum_discriminants(fields, en, f"enum {en} in protocol/fields.rs")
-        A(f"/-- `{en}` variants with their explicit discriminants, in declaration order. -/")
-        A(f"def {en[0].lower() + en[1:]}Table : List (String × Nat) := [" +
-          ", ".join(f'("{n}", {v})' for n, v in items) + "]")
-        for n, v in items:
-            A(f"def {en[0].lower() + en[1:]}_{n} : Nat := {v}")
+    try:
+        # ---- enums -------------------------------------------------------------------
+        for en in ["Version", "Role", "ProtocolStatus", "RecordType"]:
+            items = enum_discriminants(fields, en, f"enum {en} in protocol/fields.rs")
+            A(f"/-- `{en}` variants with their explicit discriminants, in declaration order. -/")
+            A(f"def {en[0].lower() + en[1:]}Table : List (String × Nat) := [" +
+              ", ".join(f'("{n}", {v})' for n, v in items) + "]")
+            for n, v in items:
+                A(f"def {en[0].lower() + en[1:]}_{n} : Nat := {v}")
+            A("")
+        rt = dict(enum_discriminants(fields, "RecordType", "RecordType"))
+
+        # ExitStatus discriminants (lib.rs)
+        es = enum_discriminants(lib, "ExitStatus", "enum ExitStatus in lib.rs")
+        A("def exitStatusTable : List (String × Nat) := [" + ", ".join(f'("{n}", {v})' for n, v in es) + "]")
         A("")
-    rt = dict(enum_discriminants(fields, "RecordType", "RecordType"))
 
-    # ExitStatus discriminants (lib.rs)
-    es = enum_discriminants(lib, "ExitStatus", "enum ExitStatus in lib.rs")
-    A("def exitStatusTable : List (String × Nat) := [" + ", ".join(f'("{n}", {v})' for n, v in es) + "]")
-    A("")
+    except Missing as e:
+        missing.append(str(e))
+    try:
+        # ---- classification predicates (matches! lists) -------------------------------
+        for fn in ["is_management", "is_input_stream", "is_output_stream"]:
+            m = need(re.search(r"pub fn %s\(self\) -> bool \{\s*matches!\(self,\s*([^)]*)\)" % fn, fields),
+                     f"RecordType::{fn} matches! list")
+            names = [x.strip().replace("Self::", "") for x in m.group(1).split("|")]
+            for n in names:
+                if n not in rt:
+                    raise Missing(f"{fn}: unknown variant {n}")
+            camel = "".join(w.capitalize() if i else w for i, w in enumerate(fn.split("_")))
+            A(f"def {camel}List : List Nat := [" + ", ".join(str(rt[n]) for n in names) + "]")
+        A("")
 
-    # ---- classification predicates (matches! lists) -------------------------------
-    for fn in ["is_management", "is_input_stream", "is_output_stream"]:
-        m = need(re.search(r"pub fn %s\(self\) -> bool \{\s*matches!\(self,\s*([^)]*)\)" % fn, fields),
-                 f"RecordType::{fn} matches! list")
-        names = [x.strip().replace("Self::", "") for x in m.group(1).split("|")]
-        for n in names:
-            if n not in rt:
-                raise Missing(f"{fn}: unknown variant {n}")
-        camel = "".join(w.capitalize() if i else w for i, w in enumerate(fn.split("_")))
-        A(f"def {camel}List : List Nat := [" + ", ".join(str(rt[n]) for n in names) + "]")
-    A("")
+    except Missing as e:
+        missing.append(str(e))
+    try:
+        # ---- Role stream tables -------------------------------------------------------
+        m = need(re.search(r"pub fn input_streams\(self\).*?match self \{(.*?)\n        \}", fields, re.S),
+                 "Role::input_streams match")
+        roles = dict(enum_discriminants(fields, "Role", "Role"))
+        rows = re.findall(r"Self::(\w+)\s*=>\s*&\[([^\]]*)\]", m.group(1))
+        if {r for r, _ in rows} != set(roles):
+            raise Missing(f"Role::input_streams does not cover all roles: {rows}")
+        A("/-- `Role::input_streams`: (role discriminant, stream type discriminants in order). -/")
+        A("def inputStreamsTable : List (Nat × List Nat) := [" + ", ".join(
+            f"({roles[r]}, [" + ", ".join(str(rt[s.strip()]) for s in lst.split(",") if s.strip()) + "])"
+            for r, lst in rows) + "]")
+        m = need(re.search(r"pub fn output_streams\(self\).*?&\[([^\]]*)\]\s*\n\s*\}", fields, re.S),
+                 "Role::output_streams")
+        A("def outputStreams : List Nat := [" + ", ".join(str(rt[s.strip()]) for s in m.group(1).split(",") if s.strip()) + "]")
+        m = need(re.search(r"pub fn next_input_stream\(self, current: Option<RecordType>\).*?match \(self, current\) \{(.*?)\n        \}",
+                           fields, re.S), "Role::next_input_stream match")
+        arms = strip_comments(m.group(1))
+        nxt = []
+        for am in re.finditer(r"\(([^,]+),\s*([^)]+(?:\([^)]*\))?)\)\s*=>\s*(Some\((\w+)\)|None)\s*,", arms):
+            rs = [x.strip().replace("Self::", "") for x in am.group(1).split("|")]
+            cur = am.group(2).strip()
+            curv = "none" if cur == "None" else "some " + str(rt[need(re.fullmatch(r"Some\((\w+)\)", cur), "next_input_stream arm " + cur).group(1)])
+            res = "none" if am.group(3) == "None" else "some " + str(rt[am.group(4)])
+            for r in rs:
+                nxt.append((roles[r], curv, res))
+        if not re.search(r"_\s*=>\s*None", arms):
+            raise Missing("next_input_stream default arm `_ => None`")
+        if not nxt:
+            raise Missing("next_input_stream arms")
+        A("/-- `Role::next_input_stream` explicit arms (role, current, result); everything else is `none`. -/")
+        A("def nextInputStreamArms : List (Nat × Option Nat × Option Nat) := [" +
+          ", ".join(f"({r}, {c}, {x})" for r, c, x in nxt) + "]")
+        A("")
 
-    # ---- Role stream tables -------------------------------------------------------
-    m = need(re.search(r"pub fn input_streams\(self\).*?match self \{(.*?)\n        \}", fields, re.S),
-             "Role::input_streams match")
-    roles = dict(enum_discriminants(fields, "Role", "Role"))
-    rows = re.findall(r"Self::(\w+)\s*=>\s*&\[([^\]]*)\]", m.group(1))
-    if {r for r, _ in rows} != set(roles):
-        raise Missing(f"Role::input_streams does not cover all roles: {rows}")
-    A("/-- `Role::input_streams`: (role discriminant, stream type discriminants in order). -/")
-    A("def inputStreamsTable : List (Nat × List Nat) := [" + ", ".join(
-        f"({roles[r]}, [" + ", ".join(str(rt[s.strip()]) for s in lst.split(",") if s.strip()) + "])"
-        for r, lst in rows) + "]")
-    m = need(re.search(r"pub fn output_streams\(self\).*?&\[([^\]]*)\]\s*\n\s*\}", fields, re.S),
-             "Role::output_streams")
-    A("def outputStreams : List Nat := [" + ", ".join(str(rt[s.strip()]) for s in m.group(1).split(",") if s.strip()) + "]")
-    m = need(re.search(r"pub fn next_input_stream\(self, current: Option<RecordType>\).*?match \(self, current\) \{(.*?)\n        \}",
-                       fields, re.S), "Role::next_input_stream match")
-    arms = strip_comments(m.group(1))
-    nxt = []
-    for am in re.finditer(r"\(([^,]+),\s*([^)]+(?:\([^)]*\))?)\)\s*=>\s*(Some\((\w+)\)|None)\s*,", arms):
-        rs = [x.strip().replace("Self::", "") for x in am.group(1).split("|")]
-        cur = am.group(2).strip()
-        curv = "none" if cur == "None" else "some " + str(rt[need(re.fullmatch(r"Some\((\w+)\)", cur), "next_input_stream arm " + cur).group(1)])
-        res = "none" if am.group(3) == "None" else "some " + str(rt[am.group(4)])
-        for r in rs:
-            nxt.append((roles[r], curv, res))
-    if not re.search(r"_\s*=>\s*None", arms):
-        raise Missing("next_input_stream default arm `_ => None`")
-    if not nxt:
-        raise Missing("next_input_stream arms")
-    A("/-- `Role::next_input_stream` explicit arms (role, current, result); everything else is `none`. -/")
-    A("def nextInputStreamArms : List (Nat × Option Nat × Option Nat) := [" +
-      ", ".join(f"({r}, {c}, {x})" for r, c, x in nxt) + "]")
-    A("")
+    except Missing as e:
+        missing.append(str(e))
+    try:
+        # ---- flags ------------------------------------------------------------------
+        m = need(re.search(r"pub struct RequestFlags: u8 \{(.*?)\n    \}", fields, re.S), "RequestFlags bitflags")
+        fl = re.findall(r"const (\w+)\s*=\s*(0x[0-9a-fA-F]+|\d+);", strip_comments(m.group(1)))
+        if not fl:
+            raise Missing("RequestFlags constants")
+        A("def requestFlagsTable : List (String × Nat) := [" + ", ".join(f'("{n}", {int(v, 0)})' for n, v in fl) + "]")
+        kc = dict((n, int(v, 0)) for n, v in fl).get("KeepConn")
+        if kc is None:
+            raise Missing("RequestFlags::KeepConn")
+        A(f"def keepConn : Nat := {kc}")
+        m = need(re.search(r"pub struct ProtocolVariables: u8 \{(.*?)\n    \}", vars_, re.S), "ProtocolVariables bitflags")
+        pv = re.findall(r"const (\w+)\s*=\s*(0x[0-9a-fA-F]+|\d+);", strip_comments(m.group(1)))
+        if not pv:
+            raise Missing("ProtocolVariables constants")
+        A("/-- `ProtocolVariables` flags in declaration order (= `iter_names` order): (name bytes, bit). -/")
+        A("def protocolVarsTable : List (List UInt8 × Nat) := [" +
+          ", ".join(f"({lean_bytes(n.encode())}, {int(v, 0)})" for n, v in pv) + "]")
+        # value rule in write_response
+        m = need(re.search(r"let value = match var \{(.*?)\n            \};", vars_, re.S), "write_response value match")
+        arms = m.group(1)
+        m1 = need(re.search(r"((?:Self::\w+\s*\|\s*)*Self::\w+)\s*=>\s*config\.max_conns\.to_compact_string\(\)", arms),
+                  "write_response max_conns arm")
+        maxc = [x.strip().replace("Self::", "") for x in m1.group(1).split("|")]
+        m2 = need(re.search(r"Self::(\w+)\s*=>\s*CompactString::const_new\(\"([^\"]*)\"\)", arms), "write_response const arm")
+        pvd = dict((n, int(v, 0)) for n, v in pv)
+        A("def varsUsingMaxConns : List Nat := [" + ", ".join(str(pvd[x]) for x in maxc) + "]")
+        A(f"def varsConst : List (Nat × List UInt8) := [({pvd[m2.group(1)]}, {lean_bytes(m2.group(2).encode())})]")
+        A("")
 
-    # ---- flags ------------------------------------------------------------------
-    m = need(re.search(r"pub struct RequestFlags: u8 \{(.*?)\n    \}", fields, re.S), "RequestFlags bitflags")
-    fl = re.findall(r"const (\w+)\s*=\s*(0x[0-9a-fA-F]+|\d+);", strip_comments(m.group(1)))
-    if not fl:
-        raise Missing("RequestFlags constants")
-    A("def requestFlagsTable : List (String × Nat) := [" + ", ".join(f'("{n}", {int(v, 0)})' for n, v in fl) + "]")
-    kc = dict((n, int(v, 0)) for n, v in fl).get("KeepConn")
-    if kc is None:
-        raise Missing("RequestFlags::KeepConn")
-    A(f"def keepConn : Nat := {kc}")
-    m = need(re.search(r"pub struct ProtocolVariables: u8 \{(.*?)\n    \}", vars_, re.S), "ProtocolVariables bitflags")
-    pv = re.findall(r"const (\w+)\s*=\s*(0x[0-9a-fA-F]+|\d+);", strip_comments(m.group(1)))
-    if not pv:
-        raise Missing("ProtocolVariables constants")
-    A("/-- `ProtocolVariables` flags in declaration order (= `iter_names` order): (name bytes, bit). -/")
-    A("def protocolVarsTable : List (List UInt8 × Nat) := [" +
-      ", ".join(f"({lean_bytes(n.encode())}, {int(v, 0)})" for n, v in pv) + "]")
-    # value rule in write_response
-    m = need(re.search(r"let value = match var \{(.*?)\n            \};", vars_, re.S), "write_response value match")
-    arms = m.group(1)
-    m1 = need(re.search(r"((?:Self::\w+\s*\|\s*)*Self::\w+)\s*=>\s*config\.max_conns\.to_compact_string\(\)", arms),
-              "write_response max_conns arm")
-    maxc = [x.strip().replace("Self::", "") for x in m1.group(1).split("|")]
-    m2 = need(re.search(r"Self::(\w+)\s*=>\s*CompactString::const_new\(\"([^\"]*)\"\)", arms), "write_response const arm")
-    pvd = dict((n, int(v, 0)) for n, v in pv)
-    A("def varsUsingMaxConns : List Nat := [" + ", ".join(str(pvd[x]) for x in maxc) + "]")
-    A(f"def varsConst : List (Nat × List UInt8) := [({pvd[m2.group(1)]}, {lean_bytes(m2.group(2).encode())})]")
-    A("")
+    except Missing as e:
+        missing.append(str(e))
+    try:
+        # ---- constants ----------------------------------------------------------------
+        env = {}
+        m = need(re.search(r"impl RecordHeader \{.*?pub const LEN: usize = (\d+);", pmod, re.S), "RecordHeader::LEN")
+        env["RecordHeader::LEN"] = int(m.group(1))
+        A(f"def recordHeaderLen : Nat := {m.group(1)}")
+        for ty in ["UnknownType", "BeginRequest", "EndRequest"]:
+            m = need(re.search(r"impl %s \{.*?pub const LEN: usize = (\d+);" % ty, body, re.S), f"{ty}::LEN")
+            env[f"{ty}::LEN"] = int(m.group(1))
+            A(f"def {ty[0].lower() + ty[1:]}Len : Nat := {m.group(1)}")
+        m = need(re.search(r"const EPILOGUE_LEN: usize = ([^;]+);", body), "EPILOGUE_LEN")
+        A(f"def epilogueLen : Nat := {eval_const_expr(m.group(1), env)}")
+        m = need(re.search(r"pub const RESPONSE_LEN: usize = (\d+);", vars_), "RESPONSE_LEN")
+        A(f"def responseLen : Nat := {m.group(1)}")
+        m = need(re.search(r"pub const FCGI_NULL_REQUEST_ID: u16 = (\d+);", pmod), "FCGI_NULL_REQUEST_ID")
+        A(f"def nullRequestId : Nat := {m.group(1)}")
+        m = need(re.search(r"const MIN_BUF_SIZE: usize = (\d+);", lib), "MIN_BUF_SIZE")
+        A(f"def minBufSize : Nat := {m.group(1)}")
+        m = need(re.search(r"const DEFAULT_BUF_SIZE: usize = (\d+);", lib), "DEFAULT_BUF_SIZE")
+        A(f"def defaultBufSize : Nat := {m.group(1)}")
+        m = need(re.search(r"Some\(r\) => r & !(\d+),", lib), "aligned_bufsize mask")
+        A(f"def alignMask : Nat := {m.group(1)}")
+        m = need(re.search(r"self\.buffer_size\.checked_add\((\d+)\)", lib), "aligned_bufsize addend")
+        A(f"def alignAdd : Nat := {m.group(1)}")
+        m = need(re.search(r"const LONG_BIT: u8 = ([^;]+);", varint), "VarInt::LONG_BIT")
+        A(f"def varintLongBit : Nat := {eval_const_expr(m.group(1), {})}")
+        m = need(re.search(r"pub const MAX: Self = VarInt\(([^;]+)\);", varint), "VarInt::MAX")
+        A(f"def varintMax : Nat := {eval_const_expr(m.group(1), {})}")
+        m = need(re.search(r"const LANES: usize = (\d+);", cgimod), "hash LANES")
+        A(f"def hashLanes : Nat := {m.group(1)}")
+        m = need(re.search(r"arr\[rem\.len\(\)\] = (0x[0-9a-fA-F]+|\d+);", cgimod), "hash terminator byte")
+        A(f"def hashTerminator : Nat := {int(m.group(1), 0)}")
+        m = need(re.search(r"pub const ABORT: Self = Self::Complete\(u32::from_be_bytes\(\*b\"([^\"]*)\"\)\);", lib), "ExitStatus::ABORT")
+        ab = rust_bytes_literal(m.group(1))
+        if len(ab) != 4:
+            raise Missing("ExitStatus::ABORT literal is not 4 bytes")
+        A(f"def exitAbort : Nat := {int.from_bytes(bytes(ab), 'big')}")
+        m = need(re.search(r"pub const SUCCESS: Self = Self::Complete\((\d+)\);", lib), "ExitStatus::SUCCESS")
+        A(f"def exitSuccess : Nat := {m.group(1)}")
+        m = need(re.search(r"buf\.get\(\.\.this\.orig_len", src("async_io/mod.rs")), "StreamWriter buf cap")  # presence only
+        m = need(re.search(r"set_lengths\(buf\.len\(\)\.try_into\(\)\.unwrap_or\(u16::MAX\)\)", src("async_io/mod.rs")),
+                 "StreamWriter length cap u16::MAX")
+        A("def writerCap : Nat := 65535")
+        # set_lengths modulus
+        m = need(re.search(r"let mut padding = content_length % (\d+);\s*if padding > 0 \{\s*padding = (\d+) - padding;", pmod),
+                 "RecordHeader::set_lengths arithmetic")
+        if m.group(1) != m.group(2):
+            raise Missing("set_lengths uses two different moduli")
+        A(f"def padModulus : Nat := {m.group(1)}")
+        A("")
 
-    # ---- constants ----------------------------------------------------------------
-    env = {}
-    m = need(re.search(r"impl RecordHeader \{.*?pub const LEN: usize = (\d+);", pmod, re.S), "RecordHeader::LEN")
-    env["RecordHeader::LEN"] = int(m.group(1))
-    A(f"def recordHeaderLen : Nat := {m.group(1)}")
-    for ty in ["UnknownType", "BeginRequest", "EndRequest"]:
-        m = need(re.search(r"impl %s \{.*?pub const LEN: usize = (\d+);" % ty, body, re.S), f"{ty}::LEN")
-        env[f"{ty}::LEN"] = int(m.group(1))
-        A(f"def {ty[0].lower() + ty[1:]}Len : Nat := {m.group(1)}")
-    m = need(re.search(r"const EPILOGUE_LEN: usize = ([^;]+);", body), "EPILOGUE_LEN")
-    A(f"def epilogueLen : Nat := {eval_const_expr(m.group(1), env)}")
-    m = need(re.search(r"pub const RESPONSE_LEN: usize = (\d+);", vars_), "RESPONSE_LEN")
-    A(f"def responseLen : Nat := {m.group(1)}")
-    m = need(re.search(r"pub const FCGI_NULL_REQUEST_ID: u16 = (\d+);", pmod), "FCGI_NULL_REQUEST_ID")
-    A(f"def nullRequestId : Nat := {m.group(1)}")
-    m = need(re.search(r"const MIN_BUF_SIZE: usize = (\d+);", lib), "MIN_BUF_SIZE")
-    A(f"def minBufSize : Nat := {m.group(1)}")
-    m = need(re.search(r"const DEFAULT_BUF_SIZE: usize = (\d+);", lib), "DEFAULT_BUF_SIZE")
-    A(f"def defaultBufSize : Nat := {m.group(1)}")
-    m = need(re.search(r"Some\(r\) => r & !(\d+),", lib), "aligned_bufsize mask")
-    A(f"def alignMask : Nat := {m.group(1)}")
-    m = need(re.search(r"self\.buffer_size\.checked_add\((\d+)\)", lib), "aligned_bufsize addend")
-    A(f"def alignAdd : Nat := {m.group(1)}")
-    m = need(re.search(r"const LONG_BIT: u8 = ([^;]+);", varint), "VarInt::LONG_BIT")
-    A(f"def varintLongBit : Nat := {eval_const_expr(m.group(1), {})}")
-    m = need(re.search(r"pub const MAX: Self = VarInt\(([^;]+)\);", varint), "VarInt::MAX")
-    A(f"def varintMax : Nat := {eval_const_expr(m.group(1), {})}")
-    m = need(re.search(r"const LANES: usize = (\d+);", cgimod), "hash LANES")
-    A(f"def hashLanes : Nat := {m.group(1)}")
-    m = need(re.search(r"arr\[rem\.len\(\)\] = (0x[0-9a-fA-F]+|\d+);", cgimod), "hash terminator byte")
-    A(f"def hashTerminator : Nat := {int(m.group(1), 0)}")
-    m = need(re.search(r"pub const ABORT: Self = Self::Complete\(u32::from_be_bytes\(\*b\"([^\"]*)\"\)\);", lib), "ExitStatus::ABORT")
-    ab = rust_bytes_literal(m.group(1))
-    if len(ab) != 4:
-        raise Missing("ExitStatus::ABORT literal is not 4 bytes")
-    A(f"def exitAbort : Nat := {int.from_bytes(bytes(ab), 'big')}")
-    m = need(re.search(r"pub const SUCCESS: Self = Self::Complete\((\d+)\);", lib), "ExitStatus::SUCCESS")
-    A(f"def exitSuccess : Nat := {m.group(1)}")
-    m = need(re.search(r"buf\.get\(\.\.this\.orig_len", src("async_io/mod.rs")), "StreamWriter buf cap")  # presence only
-    m = need(re.search(r"set_lengths\(buf\.len\(\)\.try_into\(\)\.unwrap_or\(u16::MAX\)\)", src("async_io/mod.rs")),
-             "StreamWriter length cap u16::MAX")
-    A("def writerCap : Nat := 65535")
-    # set_lengths modulus
-    m = need(re.search(r"let mut padding = content_length % (\d+);\s*if padding > 0 \{\s*padding = (\d+) - padding;", pmod),
-             "RecordHeader::set_lengths arithmetic")
-    if m.group(1) != m.group(2):
-        raise Missing("set_lengths uses two different moduli")
-    A(f"def padModulus : Nat := {m.group(1)}")
-    A("")
+    except Missing as e:
+        missing.append(str(e))
+    try:
+        # ---- StaticVarName ---------------------------------------------------------------
+        m = need(re.search(r"pub enum StaticVarName \{(.*?)\n\}", intern, re.S), "enum StaticVarName")
+        if not re.search(r'#\[strum\(use_phf, serialize_all = "SCREAMING_SNAKE_CASE"\)\]', intern):
+            raise Missing("StaticVarName strum serialize_all = SCREAMING_SNAKE_CASE attribute")
+        bodyv = strip_comments(m.group(1))
+        variants = re.findall(r"^\s*([A-Za-z][A-Za-z0-9_]*)\s*,", bodyv, re.M)
+        if len(variants) < 10:
+            raise Missing("StaticVarName variants")
+        if re.search(r"#\[strum\((?!use_phf)", m.group(1)):
+            raise Missing("StaticVarName: per-variant strum attribute not supported by translator")
+        A("/-- `StaticVarName` variants in declaration order: the identifier as written in the source. -/")
+        A("def staticVarIdents : List (List UInt8) := [")
+        A(",\n".join("  " + lean_bytes(v.encode()) for v in variants))
+        A("]")
+        A("/-- The serialised string of each variant (strum SCREAMING_SNAKE_CASE applied by the translator). -/")
+        A("def staticVarNames : List (List UInt8) := [")
+        A(",\n".join("  " + lean_bytes(screaming_snake(v).encode()) for v in variants))
+        A("]")
+        A("")
 
-    # ---- StaticVarName ---------------------------------------------------------------
-    m = need(re.search(r"pub enum StaticVarName \{(.*?)\n\}", intern, re.S), "enum StaticVarName")
-    if not re.search(r'#\[strum\(use_phf, serialize_all = "SCREAMING_SNAKE_CASE"\)\]', intern):
-        raise Missing("StaticVarName strum serialize_all = SCREAMING_SNAKE_CASE attribute")
-    bodyv = strip_comments(m.group(1))
-    variants = re.findall(r"^\s*([A-Za-z][A-Za-z0-9_]*)\s*,", bodyv, re.M)
-    if len(variants) < 10:
-        raise Missing("StaticVarName variants")
-    if re.search(r"#\[strum\((?!use_phf)", m.group(1)):
-        raise Missing("StaticVarName: per-variant strum attribute not supported by translator")
-    A("/-- `StaticVarName` variants in declaration order: the identifier as written in the source. -/")
-    A("def staticVarIdents : List (List UInt8) := [")
-    A(",\n".join("  " + lean_bytes(v.encode()) for v in variants))
-    A("]")
-    A("/-- The serialised string of each variant (strum SCREAMING_SNAKE_CASE applied by the translator). -/")
-    A("def staticVarNames : List (List UInt8) := [")
-    A(",\n".join("  " + lean_bytes(screaming_snake(v).encode()) for v in variants))
-    A("]")
-    A("")
+    except Missing as e:
+        missing.append(str(e))
+    try:
+        # ---- cgi/response.rs literals ------------------------------------------------------
+        m = need(re.search(r'const LOCATION: &\[u8\] = b"([^"]*)";', resp), "response LOCATION literal")
+        A(f"def respLocation : List UInt8 := {lean_bytes(rust_bytes_literal(m.group(1)))}")
+        fn = need(re.search(r"pub fn simple_redirect.*?\n\}", resp, re.S), "simple_redirect body").group(0)
+        m = need(re.search(r'w\.write_all\(b"([^"]*)"\)\?;\s*Ok\(LOCATION\.len\(\) \+ (\d+) \+ val\.len\(\)\)', fn),
+                 "simple_redirect terminator + count")
+        A(f"def respRedirectEnd : List UInt8 := {lean_bytes(rust_bytes_literal(m.group(1)))}")
+        A(f"def respRedirectEndCount : Nat := {m.group(2)}")
+        fn = need(re.search(r"pub fn write_headers.*?\n\}", resp, re.S), "write_headers body").group(0)
+        m = need(re.search(r'let mut sbuf = \*b"([^"]*)";', fn), "write_headers status template")
+        A(f"def respStatusTemplate : List UInt8 := {lean_bytes(rust_bytes_literal(m.group(1)))}")
+        m = need(re.search(r"sbuf\[(\d+)\.\.(\d+)\]\.copy_from_slice\(status\.as_str\(\)\.as_bytes\(\)\)", fn), "status code slot")
+        A(f"def respStatusSlot : Nat × Nat := ({m.group(1)}, {m.group(2)})")
+        m = need(re.search(r'canonical_reason\(\)\.map_or\(b"([^"]*)"', fn), "custom reason literal")
+        A(f"def respCustomReason : List UInt8 := {lean_bytes(rust_bytes_literal(m.group(1)))}")
+        m = need(re.search(r'for \(name, val\) in headers \{.*?w\.write_all\(b"([^"]*)"\)\?;\s*w\.write_all\(name\)\?;\s*'
+                           r'w\.write_all\(b"([^"]*)"\)\?;\s*w\.write_all\(val\)\?;\s*written \+= name\.len\(\) \+ val\.len\(\) \+ (\d+);',
+                           fn, re.S), "write_headers per-header writes")
+        A(f"def respHeaderLead : List UInt8 := {lean_bytes(rust_bytes_literal(m.group(1)))}")
+        A(f"def respHeaderSep : List UInt8 := {lean_bytes(rust_bytes_literal(m.group(2)))}")
+        A(f"def respHeaderCount : Nat := {m.group(3)}")
+        m = need(re.search(r'w\.write_all\(b"([^"]*)"\)\?;\s*Ok\(written \+ (\d+)\)', fn), "write_headers terminator + count")
+        A(f"def respHeadersEnd : List UInt8 := {lean_bytes(rust_bytes_literal(m.group(1)))}")
+        A(f"def respHeadersEndCount : Nat := {m.group(2)}")
+        # header-name mapping literals (cgi/mod.rs)
+        m = need(re.search(r'CompactString::const_new\("([^"]*)"\);\s*var\.reserve', cgimod), "HeaderName prefix literal")
+        A(f"def headerPrefix : List UInt8 := {lean_bytes(m.group(1).encode())}")
+        m = need(re.search(r"head\.split\('(.)'\)", cgimod), "HeaderName split char")
+        A(f"def headerSplitChar : Nat := {ord(m.group(1))}")
+        m = need(re.search(r"var\.push\('(.)'\);", cgimod), "HeaderName join char")
+        A(f"def headerJoinChar : Nat := {ord(m.group(1))}")
 
-    # ---- cgi/response.rs literals ------------------------------------------------------
-    m = need(re.search(r'const LOCATION: &\[u8\] = b"([^"]*)";', resp), "response LOCATION literal")
-    A(f"def respLocation : List UInt8 := {lean_bytes(rust_bytes_literal(m.group(1)))}")
-    fn = need(re.search(r"pub fn simple_redirect.*?\n\}", resp, re.S), "simple_redirect body").group(0)
-    m = need(re.search(r'w\.write_all\(b"([^"]*)"\)\?;\s*Ok\(LOCATION\.len\(\) \+ (\d+) \+ val\.len\(\)\)', fn),
-             "simple_redirect terminator + count")
-    A(f"def respRedirectEnd : List UInt8 := {lean_bytes(rust_bytes_literal(m.group(1)))}")
-    A(f"def respRedirectEndCount : Nat := {m.group(2)}")
-    fn = need(re.search(r"pub fn write_headers.*?\n\}", resp, re.S), "write_headers body").group(0)
-    m = need(re.search(r'let mut sbuf = \*b"([^"]*)";', fn), "write_headers status template")
-    A(f"def respStatusTemplate : List UInt8 := {lean_bytes(rust_bytes_literal(m.group(1)))}")
-    m = need(re.search(r"sbuf\[(\d+)\.\.(\d+)\]\.copy_from_slice\(status\.as_str\(\)\.as_bytes\(\)\)", fn), "status code slot")
-    A(f"def respStatusSlot : Nat × Nat := ({m.group(1)}, {m.group(2)})")
-    m = need(re.search(r'canonical_reason\(\)\.map_or\(b"([^"]*)"', fn), "custom reason literal")
-    A(f"def respCustomReason : List UInt8 := {lean_bytes(rust_bytes_literal(m.group(1)))}")
-    m = need(re.search(r'for \(name, val\) in headers \{.*?w\.write_all\(b"([^"]*)"\)\?;\s*w\.write_all\(name\)\?;\s*'
-                       r'w\.write_all\(b"([^"]*)"\)\?;\s*w\.write_all\(val\)\?;\s*written \+= name\.len\(\) \+ val\.len\(\) \+ (\d+);',
-                       fn, re.S), "write_headers per-header writes")
-    A(f"def respHeaderLead : List UInt8 := {lean_bytes(rust_bytes_literal(m.group(1)))}")
-    A(f"def respHeaderSep : List UInt8 := {lean_bytes(rust_bytes_literal(m.group(2)))}")
-    A(f"def respHeaderCount : Nat := {m.group(3)}")
-    m = need(re.search(r'w\.write_all\(b"([^"]*)"\)\?;\s*Ok\(written \+ (\d+)\)', fn), "write_headers terminator + count")
-    A(f"def respHeadersEnd : List UInt8 := {lean_bytes(rust_bytes_literal(m.group(1)))}")
-    A(f"def respHeadersEndCount : Nat := {m.group(2)}")
-    # header-name mapping literals (cgi/mod.rs)
-    m = need(re.search(r'CompactString::const_new\("([^"]*)"\);\s*var\.reserve', cgimod), "HeaderName prefix literal")
-    A(f"def headerPrefix : List UInt8 := {lean_bytes(m.group(1).encode())}")
-    m = need(re.search(r"head\.split\('(.)'\)", cgimod), "HeaderName split char")
-    A(f"def headerSplitChar : Nat := {ord(m.group(1))}")
-    m = need(re.search(r"var\.push\('(.)'\);", cgimod), "HeaderName join char")
-    A(f"def headerJoinChar : Nat := {ord(m.group(1))}")
+    except Missing as e:
+        missing.append(str(e))
     A("")
     A("end Fcgi.Gen")
     text = "\n".join(L) + "\n"
@@ -373,11 +396,17 @@ def main():
         print("gen_tables: wrote", os.path.normpath(OUT))
     else:
         print("gen_tables: unchanged")
+    for m in missing:
+        print(f"gen_tables: TABLE-ITEM-MISSING: {m}")
+    return missing
 
 
 if __name__ == "__main__":
     try:
-        main()
+        miss = main()
     except Missing as e:
+        # an item every table depends on (a source file) is gone: nothing can be generated
         print(f"gen_tables: TABLE-ITEM-MISSING: {e}", file=sys.stderr)
         sys.exit(2)
+    # items that could not be extracted are simply absent from Tables.lean: exactly the theorems that mention them stop compiling
+    sys.exit(0)
